@@ -1084,6 +1084,13 @@ func notRoundedUp(v ssa.Value, fn *ssa.Function, d int) string {
 		if sf := x.Call.StaticCallee(); sf != nil {
 			switch {
 			case sf.Pkg != nil && sf.Pkg.Pkg.Path() == "math" && sf.Name() == "Ceil":
+				// the ceiling of a real quotient; an integer quotient converted afterwards has already rounded down
+				arg := x.Call.Args[0]
+				if cv, ok := arg.(*ssa.Convert); ok {
+					if q, ok := cv.X.(*ssa.BinOp); ok && q.Op == token.QUO && isIntegral(q.Type()) {
+						return "math.Ceil of an integer quotient (the division has rounded down before Ceil sees it)"
+					}
+				}
 				return ""
 			case sf.Name() == "Min" || sf.Name() == "Max" || sf.Name() == "min" || sf.Name() == "max":
 				for _, a := range variadicValues(x.Call.Args[len(x.Call.Args)-1]) {
